@@ -52,7 +52,7 @@ def shards(tier: str, seed: int) -> list[dict[str, Any]]:
 def required_reach(tier: str) -> dict[str, int]:
     return {"contention.during-pending": 5, "contention.during-retry": 3, "tp.inside-window-attempt": 5, "cancel.while-holding": 5,
             "cancel.while-waiting": 5, "late-reply-surfaced-as-error": 3, "histories": 500, "overlapping-histories": 200,
-            "reconnect.contended": 3, "results.owned": 1000}
+            "reconnect.contended": 3, "results.owned": 1000, "transport-mode.calls": 200}
 
 
 class Wire:
@@ -171,8 +171,15 @@ def build_case(rng: random.Random) -> dict[str, Any]:
         kind = rng.choices(KINDS, weights=[4, 4, 2, 3, 2])[0]
         callers.append({"did": 0x1000 + i * 0x111 + rng.randrange(0x100), "kind": kind, "k": rng.randint(1, 4), "start": rng.choice([0.0, 0.0, 0.01, 0.2, 0.9, 1.1, rng.random() * 3]),
                         "calls": rng.choice([1, 1, 2])})
-    return {"callers": callers, "timeout": rng.choice([0.5, 1.0]), "max_retry": rng.choice([0, 0, 1, 2]), "tp": rng.choice([None, 0.3, 1.0, 2.0]),
-            "reconnect_at": rng.choice([None, None, 0.05, 0.6, 1.5]), "yield_seed": rng.randrange(1 << 30)}
+    case = {"callers": callers, "timeout": rng.choice([0.5, 1.0]), "max_retry": rng.choice([0, 0, 1, 2]), "tp": rng.choice([None, 0.3, 1.0, 2.0]),
+            "reconnect_at": rng.choice([None, None, 0.05, 0.6, 1.5]), "yield_seed": rng.randrange(1 << 30), "mode": "client"}
+    if rng.random() < 0.25:
+        # the transport's own request() (write+read under the transport mutex), used by scanners that bypass the UDS client
+        case.update({"mode": "transport", "tp": None, "reconnect_at": None, "max_retry": 0})
+        for c in callers:
+            c["timeout"] = rng.choice([0.05, 0.2, 0.5, 1.0])
+            c["calls"] = 1
+    return case
 
 
 def plans_for(case: dict[str, Any]) -> dict[bytes, list[tuple[Any, ...]]]:
@@ -204,6 +211,11 @@ async def run_history(case: dict[str, Any], cancel_at: int | None, cancel_idx: i
     ecu = ECU(wire.transport, timeout=case["timeout"], max_retry=case["max_retry"])
     loop = asyncio.get_running_loop()
     results: dict[str, list[Any]] = {}
+    ctx_reach: list[str] = []
+
+    class _R:
+        def __init__(self, pdu: bytes):
+            self.pdu = pdu
 
     async def caller(i: int, c: dict[str, Any]) -> None:
         name = f"caller{i}"
@@ -212,7 +224,11 @@ async def run_history(case: dict[str, Any], cancel_at: int | None, cancel_idx: i
             did = (c["did"] + call * 7) & 0xFFFF
             hist.append(("call", name, did, loop.time()))
             try:
-                r = await ecu.read_data_by_identifier(did)
+                if case.get("mode") == "transport":
+                    r = _R(await wire.transport.request(bytes([0x22]) + did.to_bytes(2, "big"), timeout=c.get("timeout", case["timeout"])))
+                    ctx_reach.append("transport-mode.calls")
+                else:
+                    r = await ecu.read_data_by_identifier(did)
                 hist.append(("return", name, ("ok", r.pdu), loop.time()))
                 results.setdefault(name, []).append(("ok", did, r.pdu))
             except asyncio.CancelledError:
@@ -263,14 +279,18 @@ async def run_history(case: dict[str, Any], cancel_at: int | None, cancel_idx: i
     end = loop.time()
     if case["tp"] is not None:
         await ecu.stop_cyclic_tester_present()
-    return {"hist": hist, "results": results, "end": end, "gather": [type(d).__name__ if isinstance(d, BaseException) else None for d in done], "mutex_locked": ecu.mutex.locked()}
+    return {"hist": hist, "results": results, "end": end, "reach": ctx_reach, "transport_mutex_locked": wire.transport.mutex.locked(), "gather": [type(d).__name__ if isinstance(d, BaseException) else None for d in done], "mutex_locked": ecu.mutex.locked()}
 
 
 def check_history(ctx: Any, case: dict[str, Any], out: dict[str, Any], cancel: tuple[int, int] | None) -> None:
     hist = out["hist"]
     w = {"case": case, "cancel": cancel, "history": [(h[0], h[1], h[2] if not isinstance(h[2], tuple) else list(h[2]), round(h[3], 3)) for h in hist][:80]}
     ctx.reach("histories")
+    for r in out.get("reach", []):
+        ctx.reach(r)
     ctx.trace(tuple((h[0], h[1]) for h in hist))
+    if out.get("transport_mutex_locked"):
+        ctx.violation("progress/transport-left-locked", "after all callers ended the transport mutex is still held", w)
     # ---- exchange windows: from a task's write to that task's return
     open_call: dict[str, int] = {}  # task -> index of call event
     window_owner: str | None = None
@@ -329,6 +349,8 @@ def check_history(ctx: Any, case: dict[str, Any], out: dict[str, Any], cancel: t
         own[f"caller{i}"] = {(c["did"] + k * 7) & 0xFFFF for k in range(c["calls"])}
     for name, res in out["results"].items():
         for status, did, val in res:
+            if case.get("mode") == "transport":
+                continue  # raw bytes: a late reply of an earlier timed-out exchange may legitimately be read here; only exclusion is decided
             if status == "ok":
                 if len(val) < 3 or val[0] != 0x62 or int.from_bytes(val[1:3], "big") != did or val != positive(bytes([0x22]) + did.to_bytes(2, "big")):
                     ctx.violation("ownership/foreign-reply-returned", "a caller received a reply that belongs to another request", {**w, "caller": name, "did": did, "got": val})
